@@ -7,6 +7,8 @@ VERIF = os.path.dirname(os.path.dirname(os.path.abspath(__file__)))
 CHECKS = {
  "C01": ("proof of byte-exact round trip for every well-formed CHK (Lean theorem c01_roundtrip over the chunk-loop model and the layouts regenerated from the transcoder source; instantiation obligations by decide +kernel); model tied to the code by the layout translator and an rt/dec correspondence run",
          "§5 C01", "Lean 4 proof (induction over chunks) + ast translator of struct layouts + differential correspondence"),
+ "C05": ("proof by complete enumeration (decide +kernel) that each of the 51+22 transcoder rows regenerated from the source agrees with the hand-transcribed specification table: own number and name, every argument read from and written to exactly its specification field through the same codec, zero elsewhere, no shared fields; plus the generic lemma that the table-driven record holds each argument in its field; tied to the real transcoders by a sentinel probe",
+         "§5 C05", "Lean 4 proof over the generated transcoder table (finite domain = the registry) + ast translator + sentinel-probe correspondence"),
  "C06": ("proof that every decoded field is the little-endian integer at the offset obtained from the specification's layout, in both directions; the layouts read off decode and _encode are proved equal to the hand-transcribed spec table (decide +kernel), field names included",
          "§5 C06", "Lean 4 proof (offset lemmas) + generated-layout = spec-layout obligation + independent spec reader as oracle"),
  "C12": ("proof, for every flag codec / enumeration / the AI-script and hit-point codecs as regenerated from the source, of number->rich->number and rich->number->rich exactness on the WHOLE domain (statements over all natural numbers, proved by induction on bits / membership, not by enumeration), injectivity, and rejection of every non-member number; plus exhaustive correspondence of the model with the real helpers",
